@@ -213,7 +213,13 @@ def task(args):
     for cfg in cfgs:
         capped = False
         n = 0
-        for ch, res in explore(lambda c: run_one(cfg, c), max_dev=dev_bound(cfg, max_dev, tier), cap=cap):
+        def guarded(c, cfg=cfg):
+            try:
+                return run_one(cfg, c)
+            except Exception as e:  # output that cannot even be decoded: a violation, never a harness crash
+                return f"output_malformed:{type(e).__name__}", repr(e)
+
+        for ch, res in explore(guarded, max_dev=dev_bound(cfg, max_dev, tier), cap=cap):
             if ch is None:
                 capped = True
                 break
